@@ -45,6 +45,7 @@ type interpreter struct {
 	sizes              types.Sizes
 	x                  *Explorer
 	spawned            []*thunk
+	effects            int   // stores, sends, map updates, spawns and stub calls so far
 	onBlock            value // harness callback run while a receive would block
 	inOnBlock          bool
 	timers             []*vtimer
@@ -263,9 +264,11 @@ func visitInstr(fr *frame, instr ssa.Instruction) continuation {
 		panic(targetPanic{fr.get(instr.X)})
 
 	case *ssa.Send:
+		fr.i.effects++
 		fr.get(instr.Chan).(*vchan).send(fr.get(instr.X))
 
 	case *ssa.Store:
+		fr.i.effects++
 		store(mustDeref(instr.Addr.Type()), fr.get(instr.Addr).(*value), fr.get(instr.Val))
 
 	case *ssa.If:
@@ -294,6 +297,7 @@ func visitInstr(fr *frame, instr ssa.Instruction) continuation {
 		}
 
 	case *ssa.Go:
+		fr.i.effects++
 		fn, args := prepareCall(fr, &instr.Call)
 		fr.i.spawned = append(fr.i.spawned, &thunk{fn: fn, args: args, pos: instr.Pos()})
 
@@ -407,6 +411,7 @@ func visitInstr(fr *frame, instr ssa.Instruction) continuation {
 		fr.set(instr, lookup(instr, x, fr.get(instr.Index)))
 
 	case *ssa.MapUpdate:
+		fr.i.effects++
 		m := fr.get(instr.Map)
 		key := fr.get(instr.Key)
 		v := fr.get(instr.Value)
@@ -429,21 +434,48 @@ func visitInstr(fr *frame, instr ssa.Instruction) continuation {
 		chosen := -1
 		var recv value
 		recvOk := false
-		for i, st := range instr.States {
-			ch := fr.get(st.Chan).(*vchan)
-			if st.Dir == types.RecvOnly {
-				v, ok, ready := ch.recv()
-				if ready {
-					chosen, recv, recvOk = i, v, ok
+		try := func() {
+			for i, st := range instr.States {
+				ch := fr.get(st.Chan).(*vchan)
+				if st.Dir == types.RecvOnly {
+					v, ok, ready := ch.recv()
+					if ready {
+						chosen, recv, recvOk = i, v, ok
+						break
+					}
+				} else {
+					if ch != nil && ch.closed {
+						panic(targetPanic{iface{t: types.Typ[types.String], v: "send on closed channel"}})
+					}
+					if ch != nil && len(ch.buf) < ch.cap {
+						ch.buf = append(ch.buf, fr.get(st.Send))
+						chosen = i
+						break
+					}
+				}
+			}
+		}
+		try()
+		if chosen < 0 && instr.Blocking {
+			// let the other actors run while this select would block
+			for k := 0; k < 64 && chosen < 0 && fr.i.onBlock != nil && !fr.i.inOnBlock; k++ {
+				fr.i.inOnBlock = true
+				progress := call(fr.i, fr, token.NoPos, fr.i.onBlock, nil)
+				fr.i.inOnBlock = false
+				try()
+				if b, ok := progress.(bool); !ok || !b {
 					break
 				}
-			} else {
-				if ch != nil && ch.closed {
-					panic(targetPanic{iface{t: types.Typ[types.String], v: "send on closed channel"}})
-				}
-				if ch != nil && len(ch.buf) < ch.cap {
-					ch.buf = append(ch.buf, fr.get(st.Send))
-					chosen = i
+			}
+		}
+		if chosen < 0 && instr.Blocking {
+			// nothing else can happen: a time.After case fires
+			for i, st := range instr.States {
+				ch := fr.get(st.Chan).(*vchan)
+				if st.Dir == types.RecvOnly && ch != nil && fr.i.side[fmt.Sprintf("after:%p", ch)] != nil {
+					n, _ := fr.i.side["timeouts-fired"].(int)
+					fr.i.side["timeouts-fired"] = n + 1
+					chosen, recv, recvOk = i, zero(st.Chan.Type().Underlying().(*types.Chan).Elem()), true
 					break
 				}
 			}
@@ -537,6 +569,9 @@ func callSSA(i *interpreter, caller *frame, callpos token.Pos, fn *ssa.Function,
 		name := info.name
 		if ext := info.ext; ext != nil {
 			i.x.Stats.Stubs[name]++
+			if name != "(*sync.WaitGroup).Wait" {
+				i.effects++
+			}
 			return ext(fr, args)
 		}
 		if fn.Synthetic == "package initializer" && caller != nil && caller.fn.Synthetic == "package initializer" {
